@@ -171,6 +171,49 @@ Section Dyn.
     let '(r, fs1, tr) := frun fuel fs0 (lr_init pos) in
     (r, fs1, (FInit, v0) :: tr).
 
+  (* ---- mechanism predicate of KF-C18 (ghost, not part of the driver) --------
+     the marked actions the filter accepted in this step that the driver then passed
+     over in silence (no DynamicDisambiguationConflict): possible only for EMPTY
+     reductions next to a SHIFT or another reduction *)
+  Definition taken_of (kept : list action) : option action :=
+    match kept with
+    | [] => None
+    | Reduce p0 :: more =>
+        match select_prod g p0 more with Some (p, _) => Some (Reduce p) | None => None end
+    | a :: _ => Some a
+    end.
+
+  Definition step_dropped (fs : FS) (s : lrstate) : list (N * nat * action) :=
+    match lr_decide s with
+    | DecDone _ => []
+    | DecActs stk lay1 scan fb acts =>
+        let '(kept, _, _) := run_filter fs stk scan acts in
+        if Nat.ltb 1 (dd_count kept) then []
+        else match taken_of kept with
+             | None => []
+             | Some t =>
+                 map (fun a => (fst (top_pos_state stk), snd (top_pos_state stk), a))
+                     (filter (fun a => negb (action_eqb a t) &&
+                                       match call_of stk scan a with Some _ => true | None => false end)
+                             kept)
+             end
+    end.
+
+  Fixpoint frun_dropped (fuel : nat) (fs : FS) (s : lrstate) : list (N * nat * action) :=
+    match fuel with
+    | O => []
+    | S f =>
+        let '(o, fs1, _) := fstep fs s in
+        step_dropped fs s ++
+        match o with
+        | FDone _ => []
+        | FContinue s' => frun_dropped f fs1 s'
+        end
+    end.
+
+  Definition fparse_dropped (fuel : nat) (fs : FS) (pos : N) : list (N * nat * action) :=
+    frun_dropped fuel (snd (filt fs FInit)) (lr_init pos).
+
   (* ---- what the accept-all theorem needs from the table ------------------- *)
   (* every cell holds at most one SHIFT or non-empty REDUCE (true of every table the
      impl lets an LR parser be built from without a filter) *)
@@ -210,6 +253,12 @@ Section FullDyn.
 
   Definition fparse_full (fs : FS) (pos : N) : dyn_result * FS * list (fcall * bool) :=
     fparse (pc_g c) (pc_tb c) (skipws_full c inp fuel)
+           (next_token_of (pc_terms c) (rx_of inp) (in_len inp) (pc_stop c)
+                          (pc_consume c) (pc_lexdis c) (pc_tb c))
+           (pc_stop c) (pc_consume c) false dyn_term dyn_prod FS filt fuel fs pos.
+
+  Definition fparse_full_dropped (fs : FS) (pos : N) : list (N * nat * action) :=
+    fparse_dropped (pc_g c) (pc_tb c) (skipws_full c inp fuel)
            (next_token_of (pc_terms c) (rx_of inp) (in_len inp) (pc_stop c)
                           (pc_consume c) (pc_lexdis c) (pc_tb c))
            (pc_stop c) (pc_consume c) false dyn_term dyn_prod FS filt fuel fs pos.
